@@ -316,3 +316,27 @@ Theorem C04_bytes_after_nul_ignored : forall (K : consts) s q q', cprefix q = cp
   (forall b, id_eq_ci q b = id_eq_ci q' b) /\ (forall b, id_eq_ci b q = id_eq_ci b q').
 Proof. exact (@search_ignores_bytes_after_nul). Qed.
 Print Assumptions C04_bytes_after_nul_ignored.
+
+(* BBSHOME/.PASSWDS behind symbolic links (a BBSHOME file linked into a data volume; a link to a link): LoadUHash called by any process through the entry is the load of
+   the records the entry RESOLVES to - plink n recs = n links in front of the table recs, passwd_entry = the four shapes the harness makes (op 33) - so every theorem above
+   about load_uhash / load_uhash_by (cold load exact, finds every user, reload keeps) is a theorem about linked tables. The model resolves the entry by definition; that
+   cache.LoadUHash learns the size and the records of the TABLE and not of the directory entry is validated by the harness on real links, not proved. *)
+Theorem C04_load_through_links : forall (K : consts) (p : proc) s,
+  (forall n recs, load_passwd_by p s (plink n recs) = load_uhash s recs) /\
+  (forall mode recs, load_passwd_by p s (passwd_entry mode recs) = load_uhash s recs) /\
+  (forall e e', presolve e = presolve e' -> load_passwd_by p s e = load_passwd_by p s e').
+Proof. exact (@load_through_links). Qed.
+Print Assumptions C04_load_through_links.
+
+(* No process owns index state: in the model the effect and the answer of every operation of the harness are a function of the segment alone, whichever process executes
+   it; the long-lived attached process of op 34 and the fresh one of op 29 are therefore the creator executing the same operation, and C04_multi_process_exact covers
+   histories interleaving any number of such processes. An implementation that keeps a process-private picture of a chain (a remembered tail, a cached head) is outside
+   this model: the harness looks for it by letting several long-lived processes take turns on one long chain. *)
+Theorem C04_operation_is_function_of_segment : forall (K : consts) (p q : proc) x g, apply_local p x g = apply_local q x g.
+Proof. exact (@op_function_of_segment). Qed.
+Print Assumptions C04_operation_is_function_of_segment.
+
+Theorem C04_long_lived_process_is_any_process : forall (K : consts) x k g, (0 <=? k) && (k <? 3) = true -> proc2_op g = true ->
+  apply_op x (34 :: k :: g) = apply_local creator x g /\ apply_op x (29 :: 0 :: g) = apply_local creator x g.
+Proof. exact (@peer_is_any_process). Qed.
+Print Assumptions C04_long_lived_process_is_any_process.
